@@ -8,7 +8,7 @@ def main():
     table = {
         "C17": lambda: check_simple.check_c17(tier),
         "C18": lambda: check_simple.check_c18(tier),
-        "C10": lambda: check_simple.check_c10(tier),
+        "C10": lambda: check_simple.check_c10(tier, check_simple.c10_solver_stream),
         "C11": lambda: check_simple.check_c11(tier),
     }
     for d in ("C06", "C07", "C08", "C12", "C13", "C20"):
